@@ -232,6 +232,11 @@ class FnAnalysis:
                 return (0, 1)
             a, b = R(t[2]), R(t[3])
             m = self.math(t[1], a, b, ty)
+            if t[1] == "Sub" and depth < 3:
+                if ("lt", t[3], t[2]) in st.rel:
+                    m = (max(m[0], 1), m[1])
+                elif ("le", t[3], t[2]) in st.rel:
+                    m = (max(m[0], 0), m[1])
             if ty in INT_TYS:
                 lo, hi = ty_range(ty)
                 if m[0] >= lo and m[1] <= hi:
@@ -342,6 +347,50 @@ class FnAnalysis:
             return (-INF, INF)
         return (-INF, INF)
 
+    # ---------------- relational facts: a <= b / a < b provable in state st
+    def le(self, st, a, b, depth=0, strict=False):
+        """a <= b (a < b when strict) from ranges, recorded comparisons and the shape of the terms (min/max/saturating
+        arithmetic, non-negative offsets); False means 'not proved'"""
+        if not strict and a == b:
+            return True
+        ra, rb = self.range_of(st, a), self.range_of(st, b)
+        if (ra[1] < rb[0]) if strict else (ra[1] <= rb[0]):
+            return True
+        if ("lt", a, b) in st.rel or (not strict and ("le", a, b) in st.rel):
+            return True
+        if depth > 5:
+            return False
+        d = depth + 1
+        # strip value-preserving casts
+        for x, side in ((a, 0), (b, 1)):
+            if x[0] == "cast" and len(x) == 4 and sym._uwiden(x[2], x[3]):
+                return self.le(st, x[1] if side == 0 else a, b if side == 0 else x[1], d, strict)
+        if a[0] == "min" and (self.le(st, a[1], b, d, strict) or self.le(st, a[2], b, d, strict)):
+            return True
+        if b[0] == "max" and (self.le(st, a, b[1], d, strict) or self.le(st, a, b[2], d, strict)):
+            return True
+        if b[0] == "min" and self.le(st, a, b[1], d, strict) and self.le(st, a, b[2], d, strict):
+            return True
+        if a[0] == "max" and self.le(st, a[1], b, d, strict) and self.le(st, a[2], b, d, strict):
+            return True
+        if a[0] == "satsub" and self.le(st, a[1], b, d, strict):
+            return True
+        if a[0] == "bin" and a[1] == "Sub" and len(a) == 5 and self.range_of(st, a[3])[0] >= 0 and self.le(st, a[2], b, d, strict):
+            return True         # x - k <= x for k >= 0 (the subtraction itself is checked for underflow separately)
+        if b[0] == "bin" and b[1] == "Add" and len(b) == 5:
+            for x, k in ((b[2], b[3]), (b[3], b[2])):
+                if self.range_of(st, k)[0] >= 0 and self.le(st, a, x, d, strict):
+                    return True
+        if b[0] == "satadd":
+            for x, k in ((b[1], b[2]), (b[2], b[1])):
+                pass
+        # one step of transitivity through recorded comparisons
+        for op, x, y in st.rel:
+            if x == a and y != b:
+                if self.le(st, y, b, d + 2, strict and op != "lt"):
+                    return True
+        return False
+
     # ---------------- truth of a condition term under a state: True / False / None
     def truth(self, st, c):
         if is_c(c):
@@ -388,14 +437,14 @@ class FnAnalysis:
             ra, rb = self.range_of(st, a), self.range_of(st, b)
             op = c[1]
             if op == "Lt":
-                if ra[1] < rb[0] or ("lt", a, b) in st.rel:
+                if ra[1] < rb[0] or ("lt", a, b) in st.rel or self.le(st, a, b, strict=True):
                     return True
-                if ra[0] >= rb[1] or ("le", b, a) in st.rel:
+                if ra[0] >= rb[1] or ("le", b, a) in st.rel or self.le(st, b, a):
                     return False
             if op == "Le":
-                if ra[1] <= rb[0] or ("le", a, b) in st.rel or ("lt", a, b) in st.rel or a == b:
+                if ra[1] <= rb[0] or ("le", a, b) in st.rel or ("lt", a, b) in st.rel or a == b or self.le(st, a, b):
                     return True
-                if ra[0] > rb[1] or ("lt", b, a) in st.rel:
+                if ra[0] > rb[1] or ("lt", b, a) in st.rel or self.le(st, b, a, strict=True):
                     return False
             if op == "Eq":
                 if a == b or (ra[0] == ra[1] == rb[0] == rb[1]):
